@@ -161,8 +161,8 @@ def u_pair(rec, variant):
                     break
                 if is_tagged(ea) and is_tagged(eb):
                     W = z3.Real(f"W{t+1}_{k}")
-                    ma[ea.get_id()] = W
-                    mb[eb.get_id()] = W
+                    ma[ea.get_id()] = (ea, W)
+                    mb[eb.get_id()] = (eb, W)
             maps = (ma, mb) if ok and ma else None
         for ia, ib in pairs:
             ea, eb = VA[t][ia], VB[t][ib]
